@@ -257,9 +257,40 @@ func isNull(v interface{}) bool {
 	return false
 }
 
-func (c *checker) value(v interface{}) bool {
+// pg_type.dat, the array types in scope (Spec.SqlExport.pgArrayTypes): oid -> typelem, typname
+var pgArrayTypes = map[int]struct {
+	elem int
+	name string
+}{
+	629: {628, "_line"}, 651: {650, "_cidr"}, 719: {718, "_circle"}, 775: {774, "_macaddr8"}, 791: {790, "_money"},
+	1000: {16, "_bool"}, 1001: {17, "_bytea"}, 1002: {18, "_char"}, 1003: {19, "_name"}, 1005: {21, "_int2"},
+	1006: {22, "_int2vector"}, 1007: {23, "_int4"}, 1008: {24, "_regproc"}, 1009: {25, "_text"}, 1010: {27, "_tid"},
+	1011: {28, "_xid"}, 1012: {29, "_cid"}, 1014: {1042, "_bpchar"}, 1015: {1043, "_varchar"}, 1016: {20, "_int8"},
+	1017: {600, "_point"}, 1018: {601, "_lseg"}, 1019: {602, "_path"}, 1020: {603, "_box"}, 1021: {700, "_float4"},
+	1022: {701, "_float8"}, 1027: {604, "_polygon"}, 1028: {26, "_oid"}, 1040: {829, "_macaddr"}, 1041: {869, "_inet"},
+	1115: {1114, "_timestamp"}, 1182: {1082, "_date"}, 1183: {1083, "_time"}, 1185: {1184, "_timestamptz"},
+	1187: {1186, "_interval"}, 1231: {1700, "_numeric"}, 1270: {1266, "_timetz"}, 1561: {1560, "_bit"}, 1563: {1562, "_varbit"},
+	2951: {2950, "_uuid"}, 3221: {3220, "_pg_lsn"}, 3643: {3614, "_tsvector"}, 3645: {3615, "_tsquery"}, 3807: {3802, "_jsonb"},
+	3905: {3904, "_int4range"}, 3907: {3906, "_numrange"}, 3909: {3908, "_tsrange"}, 3911: {3910, "_tstzrange"},
+	3913: {3912, "_daterange"}, 3927: {3926, "_int8range"}, 4073: {4072, "_jsonpath"},
+}
+
+// cstr: a PostgreSQL string is a C string
+func cstr(s string) string {
+	if i := strings.IndexByte(s, 0); i >= 0 {
+		return s[:i]
+	}
+	return s
+}
+
+// value: the tokens of one value of type ty (a pg_type oid; 0 = unknown)
+func (c *checker) value(v interface{}, ty int) bool {
 	if isNull(v) {
 		return c.word("null")
+	}
+	if ty == 114 || ty == 3802 {
+		// json / jsonb: one string constant holding valid JSON with that value
+		return c.one(func(t tok) bool { return t.kind == tStr && jsonTextIs(v, t.text) }, "JSON string (json type)")
 	}
 	switch x := v.(type) {
 	case nil:
@@ -284,7 +315,7 @@ func (c *checker) value(v interface{}) bool {
 	case float32:
 		return c.float(float64(x), 32)
 	case string:
-		return c.one(func(t tok) bool { return t.kind == tStr && string(t.text) == x }, fmt.Sprintf("string %q", x))
+		return c.one(func(t tok) bool { return t.kind == tStr && string(t.text) == cstr(x) }, fmt.Sprintf("string %q", cstr(x)))
 	case map[string]interface{}:
 		return c.one(func(t tok) bool { return t.kind == tStr && jsonTextIs(x, t.text) }, "JSON string")
 	case []interface{}:
@@ -295,15 +326,23 @@ func (c *checker) value(v interface{}) bool {
 		if !c.word("array") || !c.op("[") {
 			return false
 		}
+		at, isArr := pgArrayTypes[ty]
 		for i, e := range x {
 			if i > 0 && !c.op(",") {
 				return false
 			}
-			if !c.value(e) {
+			if !c.value(e, at.elem) {
 				return false
 			}
 		}
-		return c.op("]")
+		if !c.op("]") {
+			return false
+		}
+		if isArr {
+			// the cast to the column's array type: `:` `:` typname
+			return c.op(":") && c.op(":") && c.word(at.name)
+		}
+		return true
 	}
 	return c.fail("value of unexpected Go type %T", v)
 }
@@ -371,14 +410,7 @@ func (c *checker) table(t *pgdump.TableDump) bool {
 			if !ok || isNull(v) {
 				v = nil
 			}
-			if v != nil && (col.TypID == 114 || col.TypID == 3802) {
-				// json / jsonb column: one string constant holding valid JSON with that value
-				if !c.one(func(t tok) bool { return t.kind == tStr && jsonTextIs(v, t.text) }, "JSON string (json column)") {
-					return false
-				}
-				continue
-			}
-			if !c.value(v) {
+			if !c.value(v, col.TypID) {
 				return false
 			}
 		}
